@@ -308,7 +308,7 @@ package spynode
 //@   requires dbase(node)
 //@   loop * invariant dbase(node) && ncalls(GetNewSafe) >= 0 && ncalls(SaveTxState) >= 0
 //@   loop 2 invariant dbase(node) && sinceloop(same(update.State, update.TxID)) && sinceloop(ncalls(SaveTxState) == old(ncalls(SaveTxState))) && sinceloop(lastarg(SaveTxState, 2) == old(lastarg(SaveTxState, 2)))
-//@   assert safe_report_is_warranted at call HandleTxUpdate : [C07] arg2.State.Safe && !arg2.State.UnSafe && !arg2.State.Cancelled && arg2.TxID == txid
+//@   assert safe_report_is_warranted at call HandleTxUpdate : [C07 C05] arg2.State.Safe && !arg2.State.UnSafe && !arg2.State.Cancelled && arg2.TxID == txid
 //@        && lastarg(SaveTxState, 2) == txState && arg2.State == txState.State && ncalls(GetNewSafe) >= 1
 
 // C11: the stored copy of a delivered transaction is what a lookup by txid returns - the fetcher is
@@ -324,3 +324,18 @@ package spynode
 //@   assert fetcher_only_when_absent at call TxFetcher.GetTx : [C11] Cause(err) == storage.ErrNotFound
 //@   ensures stored_copy_first: [C11] ncalls(GetTx) == 0 && result1 == nil ==> lastres(FetchTxState, 0, *client.Tx) != nil && result0 == lastres(FetchTxState, 0, *client.Tx).Tx
 //@   ensures one_lookup: [C11] ncalls(FetchTxState) == 1
+
+// C03 / C11 (shutdown order): the set of delivered unconfirmed transactions is written only after the
+// channels were closed and the processing threads were seen to have finished - a transaction still in
+// the queue at stop time is delivered during the drain and must be in the saved set.
+// (The goroutines themselves are outside sequential reasoning; what is pinned is the order of the
+// steps in Run.)
+//@ func (*Node).Run
+//@   serves C03 C11
+//@   opt nomonitor = 1
+//@   opt partial = 1
+//@   opt track = Close
+//@   opt abstract = load isStopping connect Open Add Stop Reset LastHeight Save
+//@   requires node != nil
+//@   loop * invariant ncalls(Close) >= 0
+//@   assert saved_after_the_queue_is_drained at call TxRepository.Save : [C03 C11] ncalls(Close) >= 2 && processingCount == 0
